@@ -322,6 +322,20 @@ fn set_pixel<COLOR: ColorType + PixelColor>(
 ) {
     let Pixel(point, color) = pixel;
 
+    // Out of range check on the rotated size, done before the rotation arithmetic below so
+    // that extreme coordinates cannot overflow it
+    let (rotated_width, rotated_height) = match rotation {
+        DisplayRotation::Rotate0 | DisplayRotation::Rotate180 => (width, height),
+        DisplayRotation::Rotate90 | DisplayRotation::Rotate270 => (height, width),
+    };
+    if (point.x < 0)
+        || (point.x >= rotated_width as i32)
+        || (point.y < 0)
+        || (point.y >= rotated_height as i32)
+    {
+        return;
+    }
+
     // final coordinates
     let (x, y) = match rotation {
         // as i32 = never use more than 2 billion pixel per line or per column
